@@ -1,3 +1,4 @@
 import SC.Audit
 import SC.Properties.C12
+import SC.Properties.Src.C12
 #audit C12
